@@ -77,7 +77,7 @@ Proof.
       - exact Qc.
       - intros k. rewrite !in_snoc. destruct (Hne k) as (_ & N2 & N3). specialize (Qd k). intuition congruence.
       - intros k Hk. rewrite in_snoc. destruct (Hne k) as (_ & _ & N3). specialize (Qe k Hk). intuition congruence. }
-    destruct e as [p|h|w wj|en|ni nd|fi fd fok|li| | |pp|pr| |]; cbn in Sh;
+    destruct e as [p|h|w wj|en|ni nd|fi fd fok|li| | | |pp|pr| |]; cbn in Sh;
       try (apply Hother; [exact Sh|intros k; repeat split; discriminate]).
     + (* EProcess *)
       destruct Sh as (So & -> & Sl & So' & Sh'). unfold Q. rewrite Sl, So', Sh'.
@@ -375,10 +375,10 @@ Proof.
         + rewrite nth_upd_same in Hy by exact Hlt. inversion Hy; subst y. exact Hd.
         + rewrite nth_upd_other in Hy by congruence. apply Dinv_other; [apply Hc, Hne|exact (Nin i y Hy)].
       - rewrite upd_length. intros i Hi. apply Dnone_other; [apply Hc; lia|exact (Nout i Hi)]. }
-    destruct e as [p|h|w wj|en|ni nd|fi fd fok|li| | |pp|pr| |]; cbn [mon_step] in Es.
+    destruct e as [p|h|w wj|en|ni nd|fi fd fok|li| | | |pp|pr| |]; cbn [mon_step] in Es.
     + (* EProcess *)
       destruct (m_open m1); [discriminate Es|]. destruct (Nat.eqb p (length (m_rq m1))) eqn:Ep; [|discriminate Es].
-      inversion Es; subst m; clear Es. apply Nat.eqb_eq in Ep. subst p. unfold Ninv. cbn [m_rq]. split.
+      destruct (negb (m_gone m1)); [|discriminate Es]. cbn [andb] in Es. inversion Es; subst m; clear Es. apply Nat.eqb_eq in Ep. subst p. unfold Ninv. cbn [m_rq]. split.
       * intros i x Hx. destruct (Nat.lt_ge_cases i (length (m_rq m1))) as [L|G].
         -- rewrite nth_error_app1 in Hx by exact L. apply Dinv_other; [reflexivity|exact (Nin i x Hx)].
         -- rewrite nth_error_app2 in Hx by exact G. destruct (i - length (m_rq m1)) as [|k] eqn:Ek; [|destruct k; discriminate Hx].
@@ -406,9 +406,10 @@ Proof.
       intros i Hne. cbn. apply Nat.eqb_neq. congruence.
     + (* ELost *)
       destruct (nth_error (m_rq m1) li) as [x|] eqn:Ex; [|discriminate Es].
-      destruct (is_open m1 li && negb (m_dead m1)); [|discriminate Es]. inversion Es; subst m.
+      destruct (is_open m1 li && negb (m_dead m1) && m_gone m1); [|discriminate Es]. inversion Es; subst m.
       eapply (Hupd li x); [exact Ex|reflexivity| |apply Dinv_lost, (Nin li x Ex)].
       intros i Hne. cbn. apply Nat.eqb_neq. congruence.
+    + destruct (m_gone m1); [discriminate Es|]. inversion Es; subst m. apply Hsame; [reflexivity|intros i; reflexivity].
     + inversion Es; subst m. apply Hsame; [reflexivity|intros i; reflexivity].
     + inversion Es; subst m. apply Hsame; [reflexivity|intros i; reflexivity].
     + inversion Es; subst m. apply Hsame; [reflexivity|intros i; reflexivity].
@@ -493,18 +494,57 @@ Proof.
            end; try discriminate; inversion Es; reflexivity.
 Qed.
 
+(** ---------- no request is handed over once the connection is gone ---------- *)
+
+Lemma gone_step m e m' : mon_step m e = Some m' -> m_gone m' = match e with EGone => true | _ => m_gone m end /\
+  (e = EGone -> m_gone m = false).
+Proof.
+  destruct e; cbn [mon_step]; intro H;
+    repeat match type of H with
+           | context [match nth_error ?l ?i with _ => _ end] => destruct (nth_error l i)
+           | context [match m_open ?m with _ => _ end] => destruct (m_open m)
+           | context [if ?b then _ else _] => let E := fresh "Eb" in destruct b eqn:E
+           end; try discriminate; inversion H; subst; cbn; split; auto; try discriminate.
+Qed.
+
+Lemma gone_run : forall A m, mon_run mon0 A = Some m -> (m_gone m = true <-> In EGone A).
+Proof.
+  induction A as [|e A IH] using rev_ind; intros m H.
+  - inversion H; subst. cbn. split; [discriminate|tauto].
+  - apply mon_run_split in H. destruct H as (m1 & H1 & H2). cbn [mon_run] in H2.
+    destruct (mon_step m1 e) as [m2|] eqn:Es; [|discriminate H2]. inversion H2; subst m2; clear H2.
+    destruct (gone_step _ _ _ Es) as [G _]. rewrite G, in_snoc. specialize (IH m1 H1).
+    destruct e; try (split; [intros X; left; apply IH, X|intros [X|X]; [apply IH, X|discriminate X]]).
+    split; auto.
+Qed.
+
+Lemma no_process_after_gone L m A j B : mon_run mon0 L = Some m -> L = A ++ EProcess j :: B -> ~ In EGone A.
+Proof.
+  intros H E. subst L. apply mon_run_split in H. destruct H as (mA & H1 & H2). cbn [mon_run mon_step] in H2.
+  intro C. apply (gone_run _ _ H1) in C. rewrite C in H2. destruct (m_open mA); [discriminate H2|].
+  rewrite andb_false_r in H2. discriminate H2.
+Qed.
+
+Lemma lost_only_after_gone L m A i B : mon_run mon0 L = Some m -> L = A ++ ELost i :: B -> In EGone A.
+Proof.
+  intros H E. subst L. apply mon_run_split in H. destruct H as (mA & H1 & H2). cbn [mon_run mon_step] in H2.
+  apply (gone_run _ _ H1). destruct (nth_error (m_rq mA) i); [|discriminate H2].
+  destruct (m_gone mA); [reflexivity|]. rewrite andb_false_r in H2. discriminate H2.
+Qed.
+
 (** ---------- assembled for Property.v: every history of the channel model ---------- *)
 
 Section Final.
   Variable eager : N.
+  Variable sync : bool.
   Variable reqs : list reqspec.
   Variable ops : list op.
 
-  Notation logs := (snd (run eager reqs st0 ops)).
-  Notation final := (fst (run eager reqs st0 ops)).
+  Notation logs := (snd (run eager sync reqs st0 ops)).
+  Notation final := (fst (run eager sync reqs st0 ops)).
 
   Lemma flat_accepted : exists m, mon_run mon0 (concat logs) = Some m.
-  Proof. destruct (run_sim eager reqs ops st0 mon0 R0) as (m & H & _). exists m. apply mon_ops_flat, H. Qed.
+  Proof. destruct (run_sim eager sync reqs ops st0 mon0 R0) as (m & H & _). exists m. apply mon_ops_flat, H. Qed.
 
   Lemma final_accepted : mon_ops mon0 logs <> None.
   Proof. apply every_log_accepted. Qed.
@@ -522,6 +562,9 @@ Section Final.
     (e = EHead i -> ~ In (EHead i) A) /\ (e <> EHead i -> In (EHead i) A).
   Proof. destruct flat_accepted as [m H]. intros E W. eapply wire_order; eauto. Qed.
 
+  Lemma final_gone A j B : concat logs = A ++ EProcess j :: B -> ~ In EGone A.
+  Proof. destruct flat_accepted as [m H]. intro E. eapply no_process_after_gone; eauto. Qed.
+
   Lemma final_notify :
     (forall A B i d, concat logs = A ++ B -> count_fired A i d <= 1) /\
     (forall A i d (ok : bool) B, concat logs = A ++ EFired i d ok :: B ->
@@ -529,7 +572,7 @@ Section Final.
     (forall k i d, let A := concat (firstn k logs) in
        In (ENotify i d) A -> In (EEnd i) A \/ In (ELost i) A -> count_fired A i d = 1).
   Proof.
-    destruct flat_accepted as [m H]. destruct (run_sim eager reqs ops st0 mon0 R0) as (m' & H' & _).
+    destruct flat_accepted as [m H]. destruct (run_sim eager sync reqs ops st0 mon0 R0) as (m' & H' & _).
     split; [|split].
     - intros A B i d E. eapply fires_at_most_once; eauto.
     - intros A i d ok B E. eapply fired_justified; eauto.
@@ -538,7 +581,7 @@ Section Final.
 
   Lemma final_reading : s_handling final = false -> s_waiting final = false -> net_paused false (concat logs) = false.
   Proof.
-    destruct (run_sim eager reqs ops st0 mon0 R0) as (m & H & HR). intros Hh Hw.
+    destruct (run_sim eager sync reqs ops st0 mon0 R0) as (m & H & HR). intros Hh Hw.
     pose proof (paused_run _ mon0 m (mon_ops_flat _ _ _ H)) as P. cbn [m_paused mon0] in P. rewrite <- P.
     destruct HR as (_ & _ & _ & _ & _ & G & _). exact (G Hh Hw).
   Qed.
